@@ -437,7 +437,7 @@ var symPool = []string{
 
 // dollarPool are $n-shaped and version-marker-shaped texts.
 var dollarPool = []string{"$0", "$1", "$5", "$9", "$10", "$99", "$99999999999", "$007", "$ion_1_0", "$ion_1_1", "$ion_2_0", "$ion_1_0_",
-	"$0x0B", "$0b1011", "$1_0", "$1e3", "$10a", "$0x", "$_1", "$$1"}
+	"$0x0B", "$0b1011", "$1_0", "$1e3", "$10a", "$0x", "$_1", "$$1", "$ion_1_10", "$ion_10_0", "$ion_12_34", "$ion_1_0x"}
 
 // SymText draws symbol text (for symbol values, field names, annotations).
 func SymText(t *rapid.T, sz *Size) string {
@@ -608,13 +608,11 @@ func IsSystemValue(v model.Value) bool {
 	if v.Kind == model.Struct && len(v.Ann) > 0 && v.Ann[0].Known && v.Ann[0].Text == "$ion_symbol_table" {
 		return true
 	}
-	// A symbol *value* whose text is $ion_1_0 is user data (text writers must and
-	// do quote it; binary has no ambiguity). Other $ion_N_M texts are kept out of
-	// the top level: whether an unquoted one is a marker of an unsupported version
-	// is undecided (DESIGN 9.3).
-	if v.Kind == model.Symbol && !v.IsNull && len(v.Ann) == 0 && v.Sym.Known && ivmShaped(v.Sym.Text) && v.Sym.Text != "$ion_1_0" {
-		return true
-	}
+	// A symbol *value* whose text is shaped like a version marker ($ion_1_0,
+	// $ion_1_10, $ion_12_34) is user data: text writers must and do quote it, the
+	// reference printer quotes it, binary has no ambiguity. (Whether an *unquoted*
+	// $ion_2_0 is a marker of an unsupported version is undecided, DESIGN 9.3; no
+	// generator spells it that way.)
 	return false
 }
 
